@@ -46,9 +46,9 @@ def streams(rng, tier, ctx):
             sim = Sim(r, cfg, inter=it)
             lat = r.pick([0, 1_000_000, 20_000_000, 150_000_000]) if not big else r.pick([0, 1_000_000, 5_000_000])
             if slowlink:
-                lat = r.pick([1_200_000_000, 1_500_000_000, 2_500_000_000])
+                lat = r.pick([1_500_000_000, 2_000_000_000, 2_500_000_000])
                 for _ in range(cfg["fw"] + r.range(1, 4)):
-                    sim.send("A", r.below(2), r.pick([1, 1, 1, 2]), r.pick([1448, 1400, 1200]))
+                    sim.send("A", r.below(2), 1, r.pick([1448, 1400, 1200]))      # Unreliable only: nothing enters the resend queue
                 sim.run(int(12_000_000_000 // 50_000_000), 50_000_000, Net(latency=lat), Net(latency=lat))
             if burst:
                 lat = r.pick([5_000_000, 20_000_000])
